@@ -76,6 +76,7 @@ class Killer:
         self.events = []
         self.ackfd = os.open(spec["acklog"], os.O_WRONLY | os.O_APPEND | os.O_CREAT, 0o600)
         self.proc = spec.get("proc_index", 0)
+        self.pending_start = None
 
     def die(self):
         os.kill(os.getpid(), signal.SIGKILL)
@@ -131,6 +132,11 @@ def install_wrappers(K):
             tag = ""
             if name == "execute" and a:
                 tag = ":" + str(a[0]).split()[0].upper()
+                if getattr(K, "pending_start", None) and tag in (":INSERT", ":REPLACE") and len(a) > 1:
+                    i, fname = K.pending_start
+                    K.pending_start = None
+                    K.log("S %d %d %s %s" % (K.proc, i, fname, json.dumps([hx(x) if isinstance(x, (bytes, type(None))) else x
+                                                                          for x in a[1]])))
             K.event("pre:%s%s" % (name, tag))
             try:
                 r = orig(self, *a, **kw)
@@ -151,28 +157,40 @@ def install_wrappers(K):
         def w(self, *a, **kw):
             i = counter[0]
             counter[0] += 1
-            row = rowfn(*a, **kw)
-            K.log("S %d %d %s %s" % (K.proc, i, name, json.dumps([hx(x) for x in row])))
+            try:
+                row = rowfn(*a, **kw) if rowfn else None
+            except Exception:
+                row = None
+            if row is not None:
+                K.log("S %d %d %s %s" % (K.proc, i, name, json.dumps([hx(x) for x in row])))
+            else:
+                K.pending_start = (i, name)          # signature unknown: the row is read off the INSERT's bindings
             K.event("call:%d" % i)
             try:
                 r = orig(self, *a, **kw)
             except BaseException as e:
+                K.pending_start = None
                 K.log("X %d %d %s" % (K.proc, i, type(e).__name__))
                 K.event("raised:%d" % i)
                 raise
+            K.pending_start = None
             K.event("returned:%d" % i)
             K.log("A %d %d" % (K.proc, i), sync=True)
             K.event("acked:%d" % i)
             return r
         setattr(cls, name, w)
-    wrap_insert(IdentityDatabase, "insert_token",
-                lambda pk, token: (pk.key_to_bin(),) + tuple(token.to_database_tuple()))
-    wrap_insert(IdentityDatabase, "insert_metadata",
-                lambda pk, md: (pk.key_to_bin(),) + tuple(md.to_database_tuple()))
-    wrap_insert(IdentityDatabase, "insert_attestation",
-                lambda pk, auth, att: (pk.key_to_bin(), auth.key_to_bin()) + tuple(att.to_database_tuple()))
-    wrap_insert(AttestationsDB, "insert_attestation",
-                lambda att, h, sk, fmt: (h, att.serialize_private(sk.public_key()), sk.serialize(), fmt.encode()))
+    # the record is computed from the call's arguments (further positional / keyword arguments are tolerated)
+    known = {
+        (IdentityDatabase, "insert_token"): lambda pk, token, *a, **kw: (pk.key_to_bin(),) + tuple(token.to_database_tuple()),
+        (IdentityDatabase, "insert_metadata"): lambda pk, md, *a, **kw: (pk.key_to_bin(),) + tuple(md.to_database_tuple()),
+        (IdentityDatabase, "insert_attestation"):
+            lambda pk, auth, att, *a, **kw: (pk.key_to_bin(), auth.key_to_bin()) + tuple(att.to_database_tuple()),
+        (AttestationsDB, "insert_attestation"):
+            lambda att, h, sk, fmt, *a, **kw: (h, att.serialize_private(sk.public_key()), sk.serialize(), fmt.encode()),
+    }
+    for cls in (IdentityDatabase, AttestationsDB):
+        for name in sorted(n for n in vars(cls) if n.startswith("insert_") and callable(vars(cls)[n])):
+            wrap_insert(cls, name, known.get((cls, name)))
 
 
 class StubAtt:
@@ -294,11 +312,11 @@ def child_main(spec_path):
     K.event("opened")
     if spec.get("ready"):
         open(spec["ready"], "w").close()
-    for a in spec["actions"]:
+    for ai, a in enumerate(spec["actions"]):
         try:
             drv.act(a)
-        except Exception:      # the caller of an insert survives its exceptions
-            pass
+        except Exception as e:      # the caller of an insert survives its exceptions; the parent gets to see them
+            K.log("E %d %d %s %s" % (K.proc, ai, type(e).__name__, json.dumps(str(e)[:160])))
         K.event("action-done")
     K.event("end")
     if spec.get("hold"):       # timer kills: stay alive until the parent shoots
@@ -519,6 +537,8 @@ def read_acklog(path):
                 acked.add((int(parts[1]), int(parts[2])))
             elif parts[0] == "X":
                 raised[(int(parts[1]), int(parts[2]))] = parts[3] if len(parts) > 3 else "?"
+            elif parts[0] == "E" and len(parts) >= 4:
+                raised[("action", int(parts[1]), int(parts[2]))] = " ".join(parts[3:])
     return started, acked, raised
 
 
@@ -1001,11 +1021,29 @@ def scripted_identity(w: World):
           ["create_credential", 1, hx(sha3(b"own-2")), {"name": "own2"}, "last"]]
     # the second process may follow a killed first one: it only goes through the manager, which stores a
     # token only when its predecessor is in the reloaded tree
+    # ... and its early-return branches: metadata signed by someone else / pointing to another token (the token is
+    # stored, the metadata is not), a token whose predecessor is unknown (nothing is stored), metadata and
+    # attestations that do not verify (nothing is stored)
+    t4 = w.token(0, t3.get_hash(), b"attr-4")
+    t5 = w.token(0, t3.get_hash(), b"attr-5")
+    t6 = w.token(0, t5.get_hash(), b"attr-6")
+    t9 = w.token(0, sha3(b"nowhere"), b"attr-9")
+    m_wrong_signer = w.metadata(1, t4, {"name": "n4"})
+    m_wrong_pointer = w.metadata(0, t3, {"name": "n5-points-to-3"})
+    m6 = w.metadata(0, t6, {"name": "n6"})
+    forged_att = [hx(m3.get_hash()), hx(bytes(len(a1.signature)))]
     p2 = [act_cred(0, t3, m3, [(2, w.attestation(2, m3))]),
+          act_cred(0, t4, m_wrong_signer),
           ["create_credential", 1, hx(sha3(b"own-3")), {"name": "own3"}, None],
           ["attest_last", 1, 0],
+          act_cred(0, t9, w.metadata(0, t9, {"name": "n9"})),
           ["add_metadata", 0, [hx(x) for x in m1.to_database_tuple()]],
-          ["add_attestation", 0, 1, [hx(x) for x in a1.to_database_tuple()]]]
+          ["add_metadata", 0, [hx(x) for x in m_wrong_signer.to_database_tuple()]],
+          ["add_attestation", 0, 1, [hx(x) for x in a1.to_database_tuple()]],
+          ["add_attestation", 0, 1, forged_att],
+          act_cred(0, t5, m_wrong_pointer),
+          act_cred(0, t6, m6, [(1, w.attestation(1, m6))]),
+          act_cred(0, w.token(0, t6.get_hash(), b"attr-7"), m_wrong_signer)]     # the process ends on a rejected one
     return {"db": "identity", "keys": w.keybins, "procs": [p1, p2], "label": "scripted-identity"}
 
 
@@ -1078,8 +1116,11 @@ def random_identity(w: World, n, nprocs):
                 acts.append(act_cred(k, t, m, [(a, w.attestation(a, m)) for a in auths]))
             else:
                 # metadata of another token: add_credential stores the token only
-                other = w.metadata(k, r.choice(toks[k]), {"x": r.randrange(99)}) if len(toks[k]) > 1 else m
-                if other.token_pointer == t.get_hash():
+                if r.random() < 0.5:
+                    other = w.metadata((k + 1) % len(w.keys), t, {"x": r.randrange(99)})       # signed by someone else
+                else:
+                    other = w.metadata(k, r.choice(toks[k]), {"x": r.randrange(99)}) if len(toks[k]) > 1 else m
+                if other.token_pointer == t.get_hash() and other.verify(w.keys[k].pub()):
                     mds.append((k, other))
                 acts.append(act_cred(k, t, other))
         elif c < 0.55:
@@ -1120,6 +1161,14 @@ def random_wallet(w: World, n, nprocs):
     return {"db": "wallet", "keys": [], "procs": procs, "label": "generated-wallet"}
 
 
+def report_action_errors(ctx, scen, raised):
+    """a workload action that raises anything but the expected duplicate-hash IntegrityError of the wallet means the
+    harness or the manager API no longer works as the workload assumes: never silently skipped"""
+    for k, v in raised.items():
+        if isinstance(k, tuple) and k and k[0] == "action" and not v.startswith("IntegrityError"):
+            ctx.broke("workload action %d of process %d of %s raised %s" % (k[2], k[1], scen["label"], v[:200]))
+
+
 def essential_event(label):
     """quick tier: one kill per distinct position - before every writing SQL statement (incl. the statements
     inside executescript and COMMIT), after every commit, after every insert call returned, after its
@@ -1138,7 +1187,9 @@ def essential_event(label):
 def n_script_statements(kind, meta_text):
     import re
     cfg = "identity_cfg" if kind == "identity" else "wallet_cfg"
-    m = re.search(r"Definition %s : dbcfg :=\s*mkCfg \d+\s*\[OScript \[(.*?)\]; OCommit\]" % cfg, meta_text, re.S)
+    m = re.search(r"Definition %s : dbcfg :=\s*mkCfg \d+\s*\[OScript \[(.*?)\]; OCommit\]" % cfg, meta_text or "", re.S)
+    if not m:       # no generated file at all (translator aborted on a clean checkout): the experiments still run
+        return 6 if kind == "identity" else 4
     return m.group(1).count("SCreate") + m.group(1).count("SDelete") + m.group(1).count("SInsert")
 
 
@@ -1174,7 +1225,8 @@ def run_scenario(ctx, lab: Lab, scen, gen_text, pool, every_event=True, vm_kills
                 ok = False
                 break
             events = json.load(open(os.path.join(dry, "ev.json")))
-            st, _, _ = read_acklog(os.path.join(dry, "ack.log"))
+            st, _, rs = read_acklog(os.path.join(dry, "ack.log"))
+            report_action_errors(ctx, scen, rs)
             calls = [s for s in st if s["proc"] == pi]
             inst = instants(events)
             lab.run_proc(scen, base, pi, scen["procs"][pi], kill=kill)
@@ -1191,7 +1243,8 @@ def run_scenario(ctx, lab: Lab, scen, gen_text, pool, every_event=True, vm_kills
             ctx.broke("harness: dry run of the last process produced no event list", scen["label"])
             continue
         events = json.load(open(os.path.join(dry, "ev.json")))
-        st, ak, _ = read_acklog(os.path.join(dry, "ack.log"))
+        st, ak, rs = read_acklog(os.path.join(dry, "ack.log"))
+        report_action_errors(ctx, scen, rs)
         calls = [s for s in st if s["proc"] == last]
         inst = instants(events)
         total_vm = events[-1][1] if events else 0
